@@ -1,2 +1,28 @@
-(* Properties_C10.v -- placeholder until the totality proofs land. *)
-From HexVerif Require Import AsmLayout.
+(* Properties_C10.v -- the assembler is total: on every byte string the model (lexer, parser, label resolution,
+   emission, listing) either accepts or rejects with a diagnostic; no branch of the model is undefined behaviour
+   and no loop exhausts the fuel the model gives it.  Proofs: AsmFrontProofs.v. *)
+From Coq Require Import ZArith List String Bool.
+From HexVerif Require Import WMap AsmModel AsmLayout AsmSpec AsmStatements AsmFrontProofs.
+Import ListNotations.
+Local Open Scope Z_scope.
+
+Theorem C10_total :
+  forall src, (exists out, assemble src = Ok out) \/ (exists d, assemble src = Reject d).
+Proof. exact assemble_total. Qed.
+Print Assumptions C10_total.
+
+(* everything the parser accepts is well formed: instruction tokens are instructions, OPR operands are OPR
+   operands, values are C ints (the hypothesis of the C05/C15/C17 theorems) *)
+Theorem C10_parse_wf :
+  forall toks l, parse toks = Ok l -> Forall wf_directive (map (fun x => snd x) l).
+Proof. exact parse_wf. Qed.
+Print Assumptions C10_parse_wf.
+
+(* non-vacuity: both outcomes occur *)
+Example C10_accepts : exists out, assemble (bytes_of_string "BR l
+LDAC 17
+l
+OPR SVC") = Ok out /\ ao_image out = [146; 225; 49; 211].
+Proof. eexists. split; vm_compute; reflexivity. Qed.
+Example C10_rejects : assemble (bytes_of_string "BR nowhere") = Reject (EUnknownLabel 0 "nowhere").
+Proof. vm_compute. reflexivity. Qed.
